@@ -11,7 +11,7 @@ E1_NOTE = ("Trusted: the harness' stub sidecar answers (restricted to what pkg/s
 CHECKS = {
  "C01": dict(engine="E1 stub-cycle", level="exploration", ref="DESIGN.md §5 C01",
    technique="runtime monitoring: recorded request log of real coordinator cycles judged by a set-algebra oracle (orphan / unjustified removal / crash)",
-   text="Real coordinator + real shard objects run single cycles against scripted sidecar reports (directed copy/state/load families, a family of tail shards whose targets fit the front shards for some first-fit orders only (40 repetitions each) + seeded random cases, each repeated for map order); every APIGet/APIPost/ChangeScale is recorded and the oracle checks that no discovered target reported by an in-sync shard is orphaned, every removal is justified by a vanished target or another in-sync reporter, and the cycle completes (panic, fatal error or 60 s hang of the child is a violation). Exploration is the right level: the input space (reports x options x orders) is unbounded, the oracle is exact per execution.",
+   text="Real coordinator + real shard objects run single cycles against scripted sidecar reports (directed copy/state/load families, a family of tail shards whose targets fit the front shards for some first-fit orders only (40 repetitions each), a family of unassigned targets that fit only into shards with far less than 1 % free space + seeded random cases, each repeated for map order); every APIGet/APIPost/ChangeScale is recorded and the oracle checks that no discovered target reported by an in-sync shard is orphaned, every removal is justified by a vanished target or another in-sync reporter, and the cycle completes (panic, fatal error or 60 s hang of the child is a violation). Exploration is the right level: the input space (reports x options x orders) is unbounded, the oracle is exact per execution.",
    note=E1_NOTE),
  "C04": dict(engine="E1 stub-cycle", level="exploration", ref="DESIGN.md §5 C04",
    technique="runtime monitoring: posted target lists vs. reported loads, arithmetic capacity oracle; boundary-biased workloads",
@@ -23,11 +23,11 @@ CHECKS = {
    note=E1_NOTE + " The closed-loop cases use the E2 engine (real sidecars, simulated Prometheus)."),
  "C07": dict(engine="E1 stub-cycle", level="exploration", ref="DESIGN.md §5 C07",
    technique="runtime monitoring: every ChangeScale argument of a cycle judged against bounds / last-needed-shard / no-shrink rules; exhaustive enumeration of shard-kind tuples",
-   text="All 1554 tuples of shard kinds {loaded, idle-fresh, idle-expired, unready, out-of-sync, unreachable} over 1-4 positions x 4 new-target situations x 5 (min,max) x 2 idle-time settings are executed (exhaustive over that grid), then random 1-5 shard cases. Every scale request (early min-shard request included) must lie in [min,max], not below the last shard that is out of sync / holds or was given a target / is not idle long enough, and not below the current count when idle time is 0 or a placeable target is still unassigned. Closed-loop cases on real sidecars add a removal monitor on the harness clock (a removed shard was seen holding targets, or created, at a known instant; it must have been removed more than max-idle-time later; worlds with idle time 0 or 1000 h must never shrink) and a directed sequence in which the update that ends an idle period fails half-way.",
+   text="All 1554 tuples of shard kinds {loaded, idle-fresh, idle-expired, unready, out-of-sync, unreachable} over 1-4 positions x 4 new-target situations x 5 (min,max) x 2 idle-time settings are executed (exhaustive over that grid), then random 1-5 shard cases. Every scale request (early min-shard request included) must lie in [min,max], not below the last shard that is out of sync / holds or was given a target / is not idle long enough, and not below the current count when idle time is 0 or a placeable target is still unassigned. Closed-loop cases on real sidecars add a removal monitor on the harness clock (a removed shard was seen holding targets, or created, at a known instant; it must have been removed more than max-idle-time later; worlds with idle time 0 or 1000 h must never shrink) and a directed sequence in which the update that ends an idle period fails half-way. Requests are also judged against a sufficient condition for 'relief needs space'; directed families cover two overloaded shards (one relievable) next to an expired tail without room, and expired tails behind a shard whose targets do not all fit the tightly packed front.",
    note=E1_NOTE + " Idle expiry is scripted as 1 h old vs. a 30 min limit (or 1 s old), so no verdict depends on wall-clock precision."),
  "C08": dict(engine="E1 stub-cycle", level="exploration", ref="DESIGN.md §5 C08",
    technique="runtime monitoring: per-shard request log judged against 'left alone until in sync' rules; exhaustive enumeration of health-kind tuples",
-   text="All 4680 tuples of shard health kinds {ok, unready, status fails, runtime fails, push->match, push->differs, push rejected, push->recheck fails} over 1-4 positions x pending work {new targets, relief, scale-down} x idle mode, then random cases. Oracle: a shard that is not in sync receives no target / extra-config POST and is never a destination; a hash mismatch is answered by the raw-config push before anything else and re-checked; targets held only by a reachable out-of-sync shard are not assigned again.",
+   text="All 4680 tuples of shard health kinds {ok, unready, status fails, runtime fails, push->match, push->differs, push rejected, push->recheck fails} over 1-4 positions x pending work {new targets, relief, scale-down} x idle mode, then random cases. Oracle: a shard that is not in sync receives no target / extra-config POST and is never a destination; a hash mismatch is answered by the raw-config push before anything else and re-checked; targets held only by a reachable out-of-sync shard are not assigned again. The coordinator's ConfigInfo comes from a real ConfigManager that has been through two reloads differing only in external labels: a shard with another hash must be sent the content of the LAST reload.",
    note=E1_NOTE),
 }
 
@@ -39,7 +39,7 @@ E3_NOTE = ("Trusted: the harness' in-memory / raw-TCP targets and its reading of
 CHECKS.update({
  "C09": dict(engine="E3 sidecar", level="fault_enumeration", ref="DESIGN.md §5 C09",
    technique="fault injection + state monitor: store write cut after every byte offset via RLIMIT_FSIZE in a child process, process killed inside the write via strace signal injection, SIGKILL of the real binary, repeated fresh Load() compared with previous/new assignment",
-   text="The fault space (pair of consecutive assignments x byte offset at which the store write stops) is finite and swept: thorough enumerates every offset for every ordered pair of 8 assignment shapes, quick every offset for four pairs and strided for the rest, plus the old-file-name fall-back path, plus a sweep in which the updating process is KILLED inside the store write (strace-injected SIGKILL, no clean-up code runs) followed by three restarts and an acknowledged follow-up update, a retry of the same update after a failed write (must then persist), every restart repeated with update callbacks that fail ('Prometheus not up yet': what is resumed must not depend on it), plus SIGKILLs of the real `kvass sidecar` binary mid-update followed by a restart of the binary. Oracle: the next start succeeds and resumes exactly the previous or the new assignment (deep JSON equality incl. idle-since), the new one if the update was acknowledged.",
+   text="The fault space (pair of consecutive assignments x byte offset at which the store write stops) is finite and swept: thorough enumerates every offset for every ordered pair of 8 assignment shapes, quick every offset for four pairs and strided for the rest, plus the old-file-name fall-back path, plus a sweep in which the updating process is KILLED inside the store write (strace-injected SIGKILL, no clean-up code runs) followed by three restarts and an acknowledged follow-up update, a retry of the same update after a failed write (must then persist), 'wired' cases (every ordered pair of shapes acknowledged by a fully wired sidecar whose configuration knows only some of the assigned jobs, then restarts), every restart repeated with update callbacks that fail ('Prometheus not up yet': what is resumed must not depend on it), plus SIGKILLs of the real `kvass sidecar` binary mid-update followed by a restart of the binary. Oracle: the next start succeeds and resumes exactly the previous or the new assignment (deep JSON equality incl. idle-since), the new one if the update was acknowledged.",
    note=E3_NOTE + " A write cut by RLIMIT_FSIZE is taken to leave the disk as a kill / full disk at that byte would; fsync / power-loss semantics of the file system are out of scope."),
  "C10": dict(engine="E3 sidecar", level="exploration", ref="DESIGN.md §5 C10",
    technique="runtime monitoring against an executable reference model of (status map, idle-since) after every operation",
@@ -47,7 +47,7 @@ CHECKS.update({
    note=E3_NOTE),
  "C12": dict(engine="E3 sidecar", level="exploration", ref="DESIGN.md §5 C12",
    technique="runtime monitoring: byte-equality oracle at the Prometheus side of the real proxy over payload shapes x chunkings x encodings x short writes; race detector on the forwarding path",
-   text="Every payload shape (empty ... 8 MiB, parser-rejected and binary lines, a 256 KiB-1 line, a newline on the 64 KiB block boundary) x gzip/identity x every 2-way split of the wire bytes (small bodies) or random read sizes (large) x Prometheus side as instrumented writer with short writes or as a real HTTP hop x assigned/unassigned, plus concurrent scrapes of 8 targets over a real HTTP hop and rendezvous pairs of gzip scrapes held between request and streaming, and scrapes during which the administrative stop is set or lifted (a complete 200 must still carry the target's bytes); the bytes Prometheus receives must equal the target's decompressed body, with its Content-Type and status 200. Runs from the -race binary.",
+   text="Every payload shape (empty ... 8 MiB, parser-rejected and binary lines, a 256 KiB-1 line, a newline on the 64 KiB block boundary) x gzip/identity x every 2-way split of the wire bytes (small bodies) or random read sizes (large) x Prometheus side as instrumented writer with short writes or as a real HTTP hop x assigned/unassigned, plus concurrent scrapes of 8 targets over a real HTTP hop and rendezvous pairs of gzip scrapes held between request and streaming, and scrapes during which the administrative stop is set or lifted (a complete 200 must still carry the target's bytes), and every shape served as 2 and 3 concatenated gzip members; the bytes Prometheus receives must equal the target's decompressed body, with its Content-Type and status 200. Runs from the -race binary.",
    note=E3_NOTE),
  "C13": dict(engine="E3 sidecar", level="fault_enumeration", ref="DESIGN.md §5 C13",
    technique="fault injection at every stage and every body offset behind the real proxy; outcome monitor on the Prometheus side (status / aborted response) and on /targets/status/",
@@ -70,15 +70,15 @@ CHECKS.update({
    note=E4_NOTE),
  "C11": dict(engine="E4 config", level="exploration", ref="DESIGN.md §5 C11",
    technique="differential runtime monitoring: generated file re-loaded with the Prometheus loader and compared field-wise with the loaded original, reflective walk over all Secret values, byte scan for job secrets",
-   text="Generated configurations with every auth kind, SD kind, alerting and remote read/write sections with unique secrets are pushed through a real sidecar's API together with assignments (incl. empty jobs and targets of unknown jobs), then a reload changing only external labels, a second configuration and a changed assignment, the file being re-checked after each; the generated file must load, have the same jobs in order (+ the self-monitoring job iff enabled), static entries one-to-one with assigned hashes, http scheme, the sidecar's proxy URL, no basic-auth/TLS, no job secret in its bytes, unchanged ingestion settings, and unchanged global/rule/alerting/remote sections including every secret value. Overlap cases: a slow call (big configuration or big assignment) and a fast call of the other kind reach one sidecar 0-15 ms apart; when both have returned the file must show the configuration pushed and the assignment posted. In a third of the cases the write of the generated file fails once during the second configuration push, after which the coordinator's usual actions must bring the file to that configuration; 4/24 cases restart the REAL `kvass sidecar` on its volume and read the file it generates.",
+   text="Generated configurations with every auth kind, SD kind, alerting and remote read/write sections with unique secrets are pushed through a real sidecar's API together with assignments (incl. empty jobs and targets of unknown jobs), then a reload changing only external labels, a second configuration and a changed assignment, the file being re-checked after each; the generated file must load, have the same jobs in order (+ the self-monitoring job iff enabled), static entries one-to-one with assigned hashes, http scheme, the sidecar's proxy URL, no basic-auth/TLS, no job secret in its bytes, unchanged ingestion settings, and unchanged global/rule/alerting/remote sections including every secret value. Overlap cases: a slow call (big configuration or big assignment) and a fast call of the other kind reach one sidecar 0-15 ms apart; when both have returned the file must show the configuration pushed and the assignment posted. In a third of the cases the write of the generated file fails once during the second configuration push, after which the coordinator's usual actions must bring the file to that configuration; 4/24 cases restart the REAL `kvass sidecar` on its volume and read the file it generates. Read requests to the sidecar API (filtered and unfiltered samples, status, runtimeinfo) are sent between renderings: reads must not change the next file.",
    note=E4_NOTE),
  "C15": dict(engine="E4 config", level="exploration", ref="DESIGN.md §5 C15",
    technique="runtime monitoring: bijection oracle between hashes and (labels, URL) over repeated rounds, permutations, label placement, fresh processes and single-component edits",
-   text="The real TargetsDiscovery is run on generated configurations and groups; across repeated rounds, three permutation modes, 1-3 fresh processes and up to 40 single-component edits per case the relation hash <-> (shipped labels, URL) must stay a bijection (reserved non-URL labels count as labels; generated pairs of targets whose label values imitate a name/value boundary for eight separators must stay apart), the by-hash table must have one key per distinct target, a job's list may repeat a hash at most once per group, and equal inputs must give equal sets.",
+   text="The real TargetsDiscovery is run on generated configurations and groups; across repeated rounds, three permutation modes, 1-3 fresh processes and up to 40 single-component edits per case the relation hash <-> (shipped labels, URL) must stay a bijection (reserved non-URL labels count as labels; generated pairs of targets whose label values imitate a name/value boundary for eight separators must stay apart; identities use the URL built from the job section the harness loads itself; a third of the cases add two federation jobs whose targets differ only in the second value of a multi-valued param), the by-hash table must have one key per distinct target, a job's list may repeat a hash at most once per group, and equal inputs must give equal sets.",
    note=E4_NOTE),
  "C16": dict(engine="E4 config", level="exploration", ref="DESIGN.md §5 C16",
    technique="runtime monitoring: catalogue of single-setting edits (must change the hash) and re-renderings / external-label changes (must not), cross-process and through a sidecar's /runtimeinfo/",
-   text="For each generated configuration every applicable entry of a ~150-entry catalogue of single-setting edits must change the hash computed by the real ConfigManager, seven textual re-renderings and three external-label changes must not, the same bytes must hash identically whether loaded from a file in a nested directory (coordinator) or pushed as raw content (sidecar), in three fresh processes and inside a sidecar (as reported by /runtimeinfo/); a manager with an in-place rewriting reload callback (as cmd/kvass registers for its --inject options) must keep the content's hash through reload / stop reason set / repeated / cleared / reload, and so must the real `kvass sidecar --inject.kubernetes-sa-path=...` process (hash read from its /runtimeinfo/ after the same steps over HTTP); and with two overlapping pushes (the old content held inside the first reload callback while the new one is pushed) the reported hash must be that of the configuration the downstream callback was last given.",
+   text="For each generated configuration every applicable entry of a ~150-entry catalogue of single-setting edits must change the hash computed by the real ConfigManager, seven textual re-renderings and three external-label changes must not, the same bytes must hash identically whether loaded from a file in a nested directory (coordinator) or pushed as raw content (sidecar), in three fresh processes and inside a sidecar (as reported by /runtimeinfo/); a manager with an in-place rewriting reload callback (as cmd/kvass registers for its --inject options) must keep the content's hash through reload / stop reason set / repeated / cleared / reload, and so must the real `kvass sidecar --inject.kubernetes-sa-path=...` process (hash read from its /runtimeinfo/ after the same steps over HTTP); and with two overlapping pushes (the old content held inside the first reload callback while the new one is pushed) the reported hash must be that of the configuration the downstream callback was last given; eight managers reloading the same text concurrently must all compute the content's hash; configurations differing only in a password inside a URL (remote read/write url, proxy_url) must hash differently.",
    note=E4_NOTE + " Pure list re-ordering is not asserted either way."),
 })
 
@@ -86,15 +86,15 @@ CHECKS.update({
 CHECKS.update({
  "C17": dict(engine="E5 discovery/explorer", level="exploration", ref="DESIGN.md §5 C17",
    technique="runtime monitoring: (1) reference-model monitor after every step, (2) recorded concurrent histories checked for linearizability with porcupine, (3) Go race detector with attribution to reader/writer pairs of the tables",
-   text="The real TargetsDiscovery and Explore, wired and fed as in cmd/kvass/coordinator.go, are driven with sequences of full updates, partial first rounds and reloads that add/remove/keep jobs. Monitor 1 compares all four read APIs with a reference model after every step - a third of the update runs are sent back to back (2-4 updates, nobody waits for the explorer in between) and judged after the last; one reload in three leaves a kept job without a buildable HTTP client (CA file unreadable) - and re-checks earlier snapshots; monitor 2 records reads of 4-8 concurrent goroutines against a single writer (unique version per update) and checks each short history with porcupine against a sequential job->version map (a kept job may never be missing); monitor 3 repeats such histories under -race; monitor 4 runs WaitInit against scripted first-round arrivals (it must not return before every configured job had its first round).",
+   text="The real TargetsDiscovery and Explore, wired and fed as in cmd/kvass/coordinator.go, are driven with sequences of full updates, partial first rounds and reloads that add/remove/keep jobs. Monitor 1 compares all four read APIs with a reference model after every step - a third of the update runs are sent back to back (2-4 updates, nobody waits for the explorer in between) and judged after the last; one reload in three leaves a kept job without a buildable HTTP client (CA file unreadable); the coordinator's API service, constructed as cmd/kvass does, is sent eight read requests (health / job / state / statistics filters) before every comparison - and re-checks earlier snapshots; monitor 2 records reads of 4-8 concurrent goroutines against a single writer (unique version per update) and checks each short history with porcupine against a sequential job->version map (a kept job may never be missing); monitor 3 repeats such histories under -race; monitor 4 runs WaitInit against scripted first-round arrivals (it must not return before every configured job had its first round).",
    note="Trusted: the harness' feeding of the discovery channel (what the Prometheus discovery manager would send) and porcupine v1.3.0. Updates and reloads are issued by one writer: update-reload races are outside the property. Held = held on the observed histories; porcupine timeout = inconclusive."),
  "C18": dict(engine="E6 kubernetes fake", level="exploration", ref="DESIGN.md §5 C18",
    technique="runtime monitoring on a client-go fake clientset: returned shards and the recorded API actions / objects judged; exhaustive sweep of the bounded parameter grid",
-   text="Every combination of current and requested replica count 0..12 (two-digit ordinals included), 0..2 claim templates, deletion flag, six pod-list orders and readiness masks (thorough: every subset) is executed against the real ReplicasManager / shard manager on a fake clientset loaded with claims for all ordinals of two StatefulSets and decoys with similar names. Shards must come in ordinal order with the right URL and readiness; a scale change must be exactly one update to the requested value (none if unchanged); deleted claims must be exactly those of removed ordinals when deletion is on and none otherwise; a StatefulSet in a rolling update is skipped; when the API server rejects the StatefulSet update (Conflict or server error) the count stays and no claim may be deleted.",
+   text="Every combination of current and requested replica count 0..12 (two-digit ordinals included), 0..2 claim templates, deletion flag, six pod-list orders and readiness masks (thorough: every subset) is executed against the real ReplicasManager / shard manager on a fake clientset loaded with claims for all ordinals of two StatefulSets and decoys with similar names. Shards must come in ordinal order with the right URL and readiness; a scale change must be exactly one update to the requested value (none if unchanged); deleted claims must be exactly those of removed ordinals when deletion is on and none otherwise; a StatefulSet in a rolling update is skipped; when the API server rejects the StatefulSet update (Conflict or server error) the count stays and no claim may be deleted; scripted lives of a StatefulSet over 4-11 cycles with time passing through the verif hook: while a rolling update is in progress (three shapes) it is never handed to the coordinator.",
    note="Trusted: the client-go fake clientset as stand-in for the API server. Exhaustive within the stated bounds only; foreign pods, missing pods and nil replica counts are outside the property's quantifier."),
  "C20": dict(engine="E5 discovery/explorer", level="exploration", ref="DESIGN.md §5 C20",
    technique="runtime monitoring: per-target probe-lifecycle automaton over request events recorded at loopback targets, polling monitor on Explore.Get, POST monitor on a stub shard behind the real coordinator; race-detector pass",
-   text="The real Explore + scrape.Manager + TargetsDiscovery (and, in every second case, the real coordinator with a stub shard) run against 30-300 loopback HTTP targets with scripted latency and failing probes, with the real 5 s retry interval, while discovery updates remove and re-add targets inside the retry sleep and a reload keeps or drops a job. Every request at a target is recorded (arrival, departure, outcome, in-flight count) and judged per presence period: probed once asked for, single flight, retry not before the interval and within bounded time, silence after success, at most one probe after removal; Get reports healthy only after a success and with the payload's counts; nothing is assigned before a successful probe and the first assignment carries the kept count. Further cases: a job whose HTTP client cannot be built when its targets are first asked for and can after a later reload - every target must be probed and healthy within interval + 10 s of the repair.",
+   text="The real Explore + scrape.Manager + TargetsDiscovery (and, in every second case, the real coordinator with a stub shard) run against 30-300 loopback HTTP targets with scripted latency and failing probes, with the real 5 s retry interval, while discovery updates remove and re-add targets inside the retry sleep and a reload keeps or drops a job. Every request at a target is recorded (arrival, departure, outcome, in-flight count) and judged per presence period: probed once asked for, single flight, retry not before the interval and within bounded time, silence after success, at most one probe after removal; Get reports healthy only after a success and with the payload's counts; nothing is assigned before a successful probe and the first assignment carries the kept count. Further cases: a job whose HTTP client cannot be built when its targets are first asked for and can after a later reload - every target must be probed and healthy within interval + 10 s of the repair; and a reload that changes a job's metric relabel rules and params before a new target is probed for the first time (estimate under the new rules, request with the new params).",
    note="Trusted: server-side timestamps at the loopback targets; harness-side bracketing of when an update reached the explorer. Upper time bounds are bounded-progress restatements with workloads sized for >2x slack; lower bounds need no tolerance."),
 })
 
@@ -107,15 +107,15 @@ E2_NOTE = ("Trusted: the simulated Prometheus (re-reads the generated file with 
 CHECKS.update({
  "C03": dict(engine="E2 closed loop", level="exploration", ref="DESIGN.md §5 C03",
    technique="runtime monitoring of a closed loop: convergence/stability predicate over sidecar API snapshots after every cycle, per-cycle scale-up obligation monitor",
-   text="Generated worlds (limits, min/max, three idle-time modes, residue of head series, late pods, initial placements incl. overloaded shards, duplicates, pending transfers and leftovers of interrupted transfer chains written into the stores) run a perturbed phase (growth, targets added/removed, uneven scrape rounds) and then a quiet phase in which the bounded restatement of the property must hold: converged and unchanged for 5 cycles within B = 10+4T+3*8 cycles (a fitting target may stay unscraped only when max-shard is reached and no shard has room for it next to what it holds: the property presupposes enough allowed shards). One workload in six drains every target early and refills late (shards idle, possibly scaled to zero). Every cycle is additionally checked for the scale-up obligation.",
+   text="Generated worlds (limits, min/max, three idle-time modes, residue of head series, late pods, initial placements incl. overloaded shards, duplicates, pending transfers and leftovers of interrupted transfer chains written into the stores) run a perturbed phase (growth, targets added/removed, uneven scrape rounds) and then a quiet phase in which the bounded restatement of the property must hold: converged and unchanged for 5 cycles within B = 10+4T+3*8 cycles (a fitting target may stay unscraped only when max-shard is reached and no shard has room for it next to what it holds: the property presupposes enough allowed shards). One workload in six drains every target early and refills late (shards idle, possibly scaled to zero). Every cycle is additionally checked for the scale-up obligation. 4/32 further runs use the REAL processes (engine E7): the `kvass coordinator` binary with a static shard file - its own discovery manager, explorer, WaitInit and API - three `kvass sidecar` binaries, a simulated Prometheus per shard and a target farm; targets are added and removed through the coordinator's configuration file and /-/reload; convergence is bounded in coordination cycles counted at a reverse proxy in front of the sidecar APIs (a wall-clock watchdog only makes a run inconclusive).",
    note=E2_NOTE),
  "C06": dict(engine="E2 closed loop", level="fault_enumeration", ref="DESIGN.md §5 C06",
    technique="fault injection at harness-owned boundaries of a closed loop, enumerated single-fault placements + sampled/enumerated pairs, bounded-recovery monitor",
-   text="On six fixed small base schedules every placement of one fault (11 variants x 8 cycles x 3 shards; quick: complete on four schedules, strided on the others) plus pairs (quick: 200 sampled; thorough: every pair on the three relief schedules and 3000 sampled triples) is executed; after the perturbed phase the loop must return to the C03 converged state within the bound and stay there. The restart fault is additionally applied to the REAL `kvass sidecar` process (assigned, killed, started twice more on the same volume, configuration pushed again as the coordinator would, no targets posted): the file given to Prometheus must list the resumed targets. The fault space of small configurations is finite, which makes enumeration the right level.",
+   text="On six fixed small base schedules every placement of one fault (11 variants x 8 cycles x 3 shards; quick: complete on four schedules, strided on the others) plus pairs (quick: 200 sampled; thorough: every pair on the three relief schedules and 3000 sampled triples) is executed; after the perturbed phase the loop must return to the C03 converged state within the bound and stay there. The restart fault is additionally applied to the REAL `kvass sidecar` process (assigned, killed, started twice more on the same volume, configuration pushed again as the coordinator would, no targets posted): the file given to Prometheus must list the resumed targets; 4/32 runs of the real-process loop (E7) have a sidecar killed and restarted, the coordinator killed and restarted, or a shard unreachable for five cycles in the middle. A further fault, inside the real sidecar: its Prometheus answers nothing for 1-2 cycles (reload and head-series query fail); and the converged state requires that the shard listing a target has handed it to its Prometheus. The fault space of small configurations is finite, which makes enumeration the right level.",
    note=E2_NOTE),
  "C19": dict(engine="E1 stub-cycle", level="exploration", ref="DESIGN.md §5 C19",
    technique="differential runtime monitoring: request traces of a replica run alone vs. next to a hostile replica (both orders), multi-cycle, real coordinator",
-   text="For scripted multi-cycle scenarios the canonical trace of everything a replica's shards and manager receive is recorded when the replica is coordinated alone and when a hostile replica (listing or scaling failures, unready, out of sync, another placement of the same targets) is coordinated before or after it in the same cycles; the traces must be identical cycle by cycle. Cases whose own outcome depends on map order are detected by 30 (+100 on a mismatch) repetitions of the victim alone and discarded when those repetitions are mixed; if the victim alone behaves differently from before in 100 of 100 repetitions after the other replica has been coordinated in the same process, that is reported as state leaking between replicas (also probed after every case). The Kubernetes ReplicasManager is checked the same way on a fake clientset: one StatefulSet's scripted life (ready / not ready / rolling update, time passing through a verif-tagged hook that shifts the manager's not-ready timers) alone and next to a second StatefulSet - whether it is handed to the coordinator in a cycle must be identical.",
+   text="For scripted multi-cycle scenarios the canonical trace of everything a replica's shards and manager receive is recorded when the replica is coordinated alone and when a hostile replica (listing or scaling failures, unready, out of sync, another placement of the same targets) is coordinated before or after it in the same cycles; the traces must be identical cycle by cycle. Cases whose own outcome depends on map order are detected by 30 (+100 on a mismatch) repetitions of the victim alone and discarded when those repetitions are mixed; if the victim alone behaves differently from before in 100 of 100 repetitions after the other replica has been coordinated in the same process, that is reported as state leaking between replicas (also probed after every case). The Kubernetes ReplicasManager is checked the same way on a fake clientset: one StatefulSet's scripted life (ready / not ready / rolling update, time passing through a verif-tagged hook that shifts the manager's not-ready timers) alone and next to a second StatefulSet - whether it is handed to the coordinator in a cycle must be identical; in a third of these cases the other StatefulSet has a missing pod, and a panic while listing shards counts as a violation.",
    note=E1_NOTE + " A mismatch is reported only if 130 executions of the victim alone all produce the reference trace."),
 })
 
@@ -169,11 +169,13 @@ def main():
             {"name": "E1 stub-cycle", "path": "harness/internal/e1", "serves_properties": ["C01", "C04", "C05", "C07", "C08", "C19"],
              "kind_free_text": "real coordinator + real shard objects, scripted sidecar answers, recorded request log, offline oracles"},
             {"name": "E4 config", "path": "harness/internal/e4", "serves_properties": ["C02", "C11", "C15", "C16"],
-             "kind_free_text": "structured configuration and target-group generators; differential against the vendored Prometheus library; child processes for cross-process hashes"},
+             "kind_free_text": "structured configuration and target-group generators; differential against the vendored Prometheus library; child processes for cross-process hashes; real sidecar binary for wiring-dependent behaviour"},
             {"name": "E5 discovery/explorer", "path": "harness/internal/e5", "serves_properties": ["C17", "C20"],
              "kind_free_text": "coordinator-side pipeline wired as cmd/kvass/coordinator.go; loopback HTTP targets; porcupine; race-detector pass"},
-            {"name": "E6 kubernetes fake", "path": "harness/internal/e6", "serves_properties": ["C18"],
-             "kind_free_text": "real kubernetes replicas/shard manager on client-go fake clientset; action log as event log"},
+            {"name": "E6 kubernetes fake", "path": "harness/internal/e6", "serves_properties": ["C18", "C19"],
+             "kind_free_text": "real kubernetes replicas/shard manager on client-go fake clientset; action log as event log; scripted StatefulSet lives with time passing through the verif hook"},
+            {"name": "E7 real processes", "path": "harness/internal/e7", "serves_properties": ["C03", "C06"],
+             "kind_free_text": "real kvass coordinator binary (static shard file, own discovery manager, explorer, API) + real kvass sidecar binaries + simulated Prometheus per shard + target farm; cycles counted and faults injected at a reverse proxy in front of the sidecar APIs"},
             {"name": "E2 closed loop", "path": "harness/internal/e2", "serves_properties": ["C03", "C06"],
              "kind_free_text": "real coordinator + real sidecars over loopback HTTP, simulated Prometheus/StatefulSet/target farm, stepped cycles, fault wrappers"},
             {"name": "E3 sidecar", "path": "harness/internal/e3", "serves_properties": ["C09", "C10", "C12", "C13", "C14"],
